@@ -133,6 +133,12 @@ class Ctx(object):
         return h.hexdigest()
 
 
+def _artifact_errors():
+    from .ref.wire import WireError
+    from .ref.armor import ArmorError
+    return (WireError, ArmorError)
+
+
 def load_prop(prop):
     return importlib.import_module('pgpsim.props.' + prop.lower())
 
@@ -175,6 +181,21 @@ def run_case(prop, case, known=(), collect_all=False):
                 ctx.event('END', v.signature)
             except seams.SimCancelled:
                 res['harness_error'] = 'SimCancelled escaped the executor\n' + traceback.format_exc()
+            except _artifact_errors() as e:
+                # the reference peer could not parse an artifact under test at a place where the executor did not
+                # expect that: the artifact (made or re-exported by PGPy) is not well-formed OpenPGP.  On the unchanged
+                # tree this never happens (every check passes thousands of runs under many seeds); reporting it as a
+                # harness error would hide a real break behind exit 2.
+                tb = traceback.extract_tb(e.__traceback__)
+                where = next(('%s:%d' % (os.path.basename(f.filename), f.lineno) for f in reversed(tb)
+                              if '/pgpsim/props/' in f.filename), '?')
+                sig = '%s:artifact-unparsable:%s' % (prop, type(e).__name__)
+                v = {'signature': sig, 'message': 'an artifact under test is not well-formed: %s (at %s)' % (e, where), 'step': ctx.step}
+                if sig in ctx.known:
+                    res['known'] = v
+                else:
+                    res['violation'] = v
+                ctx.event('END', sig)
             except Exception:
                 res['harness_error'] = traceback.format_exc()
             finally:
